@@ -11,7 +11,7 @@
 //! are enumerated for a small workload: recovery must succeed, keep the old content and contain
 //! the flush's update if the flush returned Ok.
 use crate::c11::{coherent, fold_recovered, gen_updates, show_upds, sorted_map, Upd, PREFIX};
-use crate::c12::{compactor, lww_upd, recover_image, refs_complete, CCfg, FaultStore, Proc};
+use crate::c12::{compactor, lww_upd, recover_image, refs_complete, CCfg, Fault, FaultStore, Proc};
 use crate::enc::{hex, MCrdt, MLww, MRv};
 use crate::out::Out;
 use crate::rng::Rng;
@@ -118,7 +118,7 @@ fn classify(before: &Fold, after: &Fold, tombs_removed: u64, all: &[Upd], cutoff
 }
 
 /// flush the layout (one segment per group), compact, compare recovery before / after
-async fn layout_case(out: &mut Out, groups: &[Vec<Upd>], c: &CCfg, big: &[bool], tag: &str, expect_known: bool) {
+async fn layout_case(out: &mut Out, groups: &[Vec<Upd>], c: &CCfg, read_fault: Option<(u64, Fault)>, tag: &str, expect_known: bool) {
     let mut p = Proc::new(out, 1, &[]).await;
     let mut all: Vec<Upd> = Vec::new();
     for (gi, g) in groups.iter().enumerate() {
@@ -127,13 +127,24 @@ async fn layout_case(out: &mut Out, groups: &[Vec<Upd>], c: &CCfg, big: &[bool],
             all.push(u.clone());
         }
         p.flush(out).await;
-        let _ = big.get(gi);
+        let _ = gi;
     }
     let before = p.rec(out).await;
+    // optionally a read fault on one of the pass's reads (the object at rest stays intact)
+    if let Some(rf) = read_fault {
+        let at = p.store.calls() + 1 + rf.0;
+        p.set_fault(at, rf.1);
+    }
     let r = p.compact(out, c).await;
     let after = p.rec(out).await;
+    let read_recs = p.store.inner.lock().unwrap().read_faults.clone();
+    let undetectable = !p.undetectable().is_empty();
+    p.commit(out);
     let co = coherent(&all);
     out.count(&format!("layout:{}", tag));
+    for r in &read_recs {
+        out.count(&format!("pass-read-fault:{}:{}:{}", r.kind, r.object, r.outcome));
+    }
     out.count(if co { "content:coherent" } else { "content:incoherent" });
     let (tombs, outcome) = match &r {
         Ok(cr) => (cr.tombstones_removed, if cr.segment_created.is_some() { "compacted" } else { "emptied-or-cleaned" }),
@@ -151,7 +162,10 @@ async fn layout_case(out: &mut Out, groups: &[Vec<Upd>], c: &CCfg, big: &[bool],
     cand.sort();
     let uneven = cand.iter().map(|x| x.1).max().unwrap_or(0) > cand.iter().map(|x| x.1).min().unwrap_or(0) + 40;
     out.count(if cand.len() as u64 > c.maxper { if uneven { "selection:candidates>maxper:uneven-sizes" } else { "selection:candidates>maxper:even-sizes" } } else { "selection:candidates<=maxper" });
-    let expected: Vec<u64> = cand.iter().take(c.maxper as usize).map(|x| x.0).collect();
+    // a selected segment whose read came back mangled is skipped by the pass (stays listed)
+    let skipped: Vec<u64> = read_recs.iter().filter(|r| r.object == "segment" && r.outcome == "rejected")
+        .filter_map(|r| p.segs.iter().find(|(id, _, _)| r.key.ends_with(&format!("segment-{:08}.seg", id))).map(|x| x.0)).collect();
+    let expected: Vec<u64> = cand.iter().take(c.maxper as usize).map(|x| x.0).filter(|id| !skipped.contains(id)).collect();
     let mut removed: Vec<u64> = match &r {
         Ok(cr) => cr.segments_removed.iter().map(|s| s.id).collect(),
         Err(_) => Vec::new(),
@@ -181,13 +195,16 @@ async fn layout_case(out: &mut Out, groups: &[Vec<Upd>], c: &CCfg, big: &[bool],
                 if let Some(k) = &key {
                     let newest_removed = removed.iter().max().cloned().unwrap_or(0);
                     let mut skipped_older_candidate = false;
+                    let mut skipped_unreadable = false;
                     for (id, sz, ups) in &p.segs {
                         if removed.contains(id) || !ups.iter().any(|(k2, _)| k2 == k) {
                             continue;
                         }
                         let candidate = *sz < c.target;
-                        let why = if !candidate { "not a candidate (size >= target)" } else if *id > newest_removed { "candidate newer than every removed segment (cut off by max_segments_per_compaction)" } else { "CANDIDATE OLDER THAN A REMOVED SEGMENT (skipped by the selection)" };
-                        if candidate && *id < newest_removed {
+                        let why = if skipped.contains(id) { "selected but SKIPPED by the pass: its read came back mangled" } else if !candidate { "not a candidate (size >= target)" } else if *id > newest_removed { "candidate newer than every removed segment (cut off by max_segments_per_compaction)" } else { "CANDIDATE OLDER THAN A REMOVED SEGMENT (skipped by the selection)" };
+                        if skipped.contains(id) {
+                            skipped_unreadable = true;
+                        } else if candidate && *id < newest_removed {
                             skipped_older_candidate = true;
                         }
                         outside.push(json!({"segment": id, "size": sz, "why_outside": why}));
@@ -196,10 +213,25 @@ async fn layout_case(out: &mut Out, groups: &[Vec<Upd>], c: &CCfg, big: &[bool],
                         if let Some(sym) = sig.strip_prefix("C13:tombstone-gc:") {
                             sig = format!("C13:selection:not-oldest-first:{}", sym);
                         }
+                    } else if skipped_unreadable && sig.starts_with("C13:tombstone-gc:") {
+                        sig = "C13:tombstone-gc:skipped-unreadable-segment".to_string();
                     }
                 }
+                if !read_recs.is_empty() && sig != "C13:tombstone-gc:skipped-unreadable-segment" {
+                    // a read of the pass was mangled: cause first
+                    sig = if undetectable {
+                        let r0 = &read_recs[0];
+                        format!("C13:read-corruption-accepted:{}:{}", r0.object, r0.kind)
+                    } else if sig.starts_with("C13:tombstone-gc:") && (read_recs.iter().all(|r| r.outcome == "benign") || outside.iter().any(|o| !o["why_outside"].as_str().unwrap_or("").contains("SKIPPED"))) {
+                        // the key lives on in a segment outside the pass for a reason that does not
+                        // depend on the read fault (non-candidate / cut off): the listed GC cause
+                        sig
+                    } else {
+                        "C13:compaction:read-fault:state-differs".to_string()
+                    };
+                }
                 out.violation(&sig, "the state recovered after the compaction differs from the state recovered before it",
-                    replay(json!({"before": show_upds(b), "after": show_upds(a), "tombstones_removed": tombs, "key": key.as_ref().map(|k| hex(k.as_bytes())), "removed_segments": removed, "key_outside_the_pass": outside})));
+                    replay(json!({"read_faults": format!("{:?}", read_recs), "before": show_upds(b), "after": show_upds(a), "tombstones_removed": tombs, "key": key.as_ref().map(|k| hex(k.as_bytes())), "removed_segments": removed, "key_outside_the_pass": outside})));
             } else if expect_known {
                 out.count("corpus:witness-of-fixed-defect-passes");
             }
@@ -452,6 +484,7 @@ async fn interleave_case(out: &mut Out) {
     let calls = p.store.calls();
     p.log(out, format!("INTERLEAVE {} {} {} {} {} {}", c.target, c.min, c.maxper, c.cutoff, szc, szf), format!("flush={} compact={} calls={}", fo, co, calls));
     p.rec(out).await.ok();
+    p.commit(out);
     out.count("interleaving:model-correspondence");
 }
 
@@ -509,7 +542,19 @@ async fn random_case(out: &mut Out, rng: &mut Rng) {
         _ => 0,
     };
     let c = CCfg { target, min: rng.range(1, 3), maxper: if rng.chance(1, 2) { 2 } else { rng.range(2, 5) }, cutoff };
-    layout_case(out, &groups, &c, &[], if mode == 0 { "single-replica-monotone" } else { "multi-replica" }, false).await;
+    // 1/3 of the layouts: one read of the pass comes back mangled (or fails)
+    let rf = if rng.chance(1, 3) {
+        let f = match rng.below(5) {
+            0 => Fault::Fail,
+            1 => Fault::ReadEmpty { persistent: false },
+            2 => Fault::ReadTrunc { permille: rng.below(1001) as u16, persistent: false },
+            _ => Fault::ReadFlip { permille: *rng.pick(&[0u16, 10, 40, 90, 150, 300, 450, 600, 750, 900, 960, 990, 999]), n: rng.range(1, 3) as u8, mask: if rng.chance(1, 2) { 1 << rng.below(8) } else { rng.range(1, 255) as u8 }, persistent: false },
+        };
+        Some((rng.below(groups.len() as u64), f))
+    } else {
+        None
+    };
+    layout_case(out, &groups, &c, rf, if mode == 0 { "single-replica-monotone" } else { "multi-replica" }, false).await;
 }
 
 pub fn run(a: &Args) {
@@ -519,17 +564,17 @@ pub fn run(a: &Args) {
     rt.block_on(async {
         let all = CCfg { target: 1 << 20, min: 2, maxper: 5, cutoff: 0 };
         // corpus: the kernel-checked counterexamples of Props/C13.lean on the real code
-        layout_case(&mut out, &[vec![lww_upd("k", b"1", 5, 1, false)], vec![lww_upd("k", b"2", 5, 2, false)]], &all, &[], "corpus:equal-times", true).await;
+        layout_case(&mut out, &[vec![lww_upd("k", b"1", 5, 1, false)], vec![lww_upd("k", b"2", 5, 2, false)]], &all, None, "corpus:equal-times", true).await;
         let mut e1 = lww_upd("e", b"1", 3, 1, false);
         e1.1.expiry_ms = Some(100000);
-        layout_case(&mut out, &[vec![e1], vec![lww_upd("e", b"2", 4, 1, false)]], &all, &[], "corpus:expiry", true).await;
-        layout_case(&mut out, &[vec![hash_upd("h", &[("f", b"1", 1, 1)], 1, 1)], vec![hash_upd("h", &[("g", b"2", 2, 2)], 2, 2)]], &all, &[], "corpus:hash", true).await;
+        layout_case(&mut out, &[vec![e1], vec![lww_upd("e", b"2", 4, 1, false)]], &all, None, "corpus:expiry", true).await;
+        layout_case(&mut out, &[vec![hash_upd("h", &[("f", b"1", 1, 1)], 1, 1)], vec![hash_upd("h", &[("g", b"2", 2, 2)], 2, 2)]], &all, None, "corpus:hash", true).await;
         // older value in a segment over the size target; the tombstone IS older than the cutoff
         let big: Vec<Upd> = std::iter::once(lww_upd("t", b"x", 3, 1, false))
             .chain((0..12).map(|i| lww_upd(&format!("pad{}", i), &[b'x'; 30], 1, 1, false)))
             .collect();
         layout_case(&mut out, &[big, vec![tomb_upd("t", 5, 1)], vec![lww_upd("u", b"1", 6, 1, false)]],
-            &CCfg { target: 1000, min: 2, maxper: 5, cutoff: 100 }, &[], "corpus:older-value-in-skipped-segment", true).await;
+            &CCfg { target: 1000, min: 2, maxper: 5, cutoff: 100 }, None, "corpus:older-value-in-skipped-segment", true).await;
         // the dropped tombstone carries an expiry (record_delete keeps expiry_ms) that the merge with a
         // newer value in an uncompacted segment retains (max of expiries): GC removes it
         let mut v13 = lww_upd("k", b"v13", 5, 1, false);
@@ -540,7 +585,7 @@ pub fn run(a: &Args) {
             .chain((0..12).map(|i| lww_upd(&format!("pad{}", i), &[b'x'; 30], 1, 1, false)))
             .collect();
         layout_case(&mut out, &[vec![v13], vec![td], bigk],
-            &CCfg { target: 1000, min: 2, maxper: 5, cutoff: 100 }, &[], "corpus:expiry-of-dropped-tombstone", true).await;
+            &CCfg { target: 1000, min: 2, maxper: 5, cutoff: 100 }, None, "corpus:expiry-of-dropped-tombstone", true).await;
         // same with the vector clock (Causal mode, two replicas): the dropped tombstone of r1 contributed
         // {r1:2} to the merged vector clock of r2's newer write
         let with_vc = |mut u: Upd, vc: &[(u64, u64)]| -> Upd {
@@ -553,14 +598,24 @@ pub fn run(a: &Args) {
             .chain((0..12).map(|i| lww_upd(&format!("pad{}", i), &[b'x'; 30], 1, 1, false)))
             .collect();
         layout_case(&mut out, &[vec![with_vc(lww_upd("k", b"a", 5, 1, false), &[(1, 1)])], vec![with_vc(tomb_upd("k", 6, 1), &[(1, 2)])], bigv],
-            &CCfg { target: 1000, min: 2, maxper: 5, cutoff: 100 }, &[], "corpus:vclock-of-dropped-tombstone", true).await;
+            &CCfg { target: 1000, min: 2, maxper: 5, cutoff: 100 }, None, "corpus:vclock-of-dropped-tombstone", true).await;
         // three candidates of uneven sizes, max_segments_per_compaction = 2: oldest-first takes the
         // large old segment (k = v1) together with k's expired tombstone — must pass
         let seg0: Vec<Upd> = std::iter::once(lww_upd("k", b"v1", 10, 1, false))
             .chain((0..8).map(|i| lww_upd(&format!("pad{}", i), b"padding-value", 11 + i, 1, false)))
             .collect();
         layout_case(&mut out, &[seg0, vec![tomb_upd("k", 20, 1)], vec![lww_upd("x", b"1", 30, 1, false)]],
-            &CCfg { target: 1 << 20, min: 2, maxper: 2, cutoff: 100 }, &[], "corpus:uneven-candidates-maxper-2", true).await;
+            &CCfg { target: 1 << 20, min: 2, maxper: 2, cutoff: 100 }, None, "corpus:uneven-candidates-maxper-2", true).await;
+        // one read of the pass comes back with a flipped byte in the record region (checksum fails,
+        // some positions still decode): the segment must be skipped, recovery unchanged
+        for pm in [350u16, 450, 550, 650, 750, 850] {
+            layout_case(&mut out, &[vec![lww_upd("k", b"value-one", 5, 1, false)], vec![lww_upd("l", b"value-two", 6, 1, false)], vec![lww_upd("m", b"value-three", 7, 1, false)]],
+                &CCfg { target: 1 << 20, min: 1, maxper: 5, cutoff: 0 }, Some((1, Fault::ReadFlip { permille: pm, n: 1, mask: 1, persistent: false })), "corpus:pass-read-flip", true).await;
+        }
+        // tombstone GC in a pass that SKIPPED the older segment holding the key's value (its read
+        // came back empty): the tombstone is dropped, the value resurfaces
+        layout_case(&mut out, &[vec![lww_upd("k", b"old", 5, 1, false)], vec![tomb_upd("k", 8, 1)], vec![lww_upd("u", b"1", 9, 1, false)]],
+            &CCfg { target: 1 << 20, min: 2, maxper: 5, cutoff: 100 }, Some((0, Fault::ReadEmpty { persistent: false })), "corpus:gc-skipped-unreadable-segment", true).await;
         production_clock_witness(&mut out).await;
         interleave_case(&mut out).await;
         enumerate_races(&mut out).await;
